@@ -97,6 +97,26 @@ def scenario_check(name, exact, seed):
     return None
 
 
+def parallel_check():
+    """-> (None | what fails, raw)"""
+    import json, os, subprocess, sys
+    import common
+    r = subprocess.run([sys.executable, "-W", "ignore", os.path.join(common.VERIF, "harness", "c11_parallel.py")],
+                       capture_output=True, text=True, env=dict(os.environ), timeout=1200, cwd=common.VERIF)
+    line = [l for l in r.stdout.splitlines() if l.startswith("C11PAR ")]
+    if not line:
+        raise common.InternalError("parallel probe produced no result: " + (r.stderr or r.stdout)[-300:])
+    o = json.loads(line[-1][7:])
+    if "error" in o:
+        return "solve_stochast(parallel=True) on a fresh model with declared limits raised " + o["error"], o
+    for mode in ("exact", "tau"):
+        for j, (lo, hi) in enumerate(o["limits"]):
+            if (lo is not None and o[mode]["min"][j] < lo - TOL) or (hi is not None and o[mode]["max"][j] > hi + TOL):
+                return ("parallel=True, %s: state %d ranges over [%g, %g], its declared limits are (%s, %s)"
+                        % (mode, j, o[mode]["min"][j], o[mode]["max"][j], lo, hi)), o
+    return None, o
+
+
 def run(ck):
     ck.rule = ("event models with lower / upper / two-sided / absent / default limits per state, x0 inside the limits and "
                "small populations so the boundary is hit; exact, adaptive and fixed tau; magnitudes up to 3; each path "
@@ -104,6 +124,11 @@ def run(ck):
                "rejected (illegal) step occurred on the path.  Plus fixed scenarios: a state added after construction, "
                "an output grid that starts before the initial time (raw and gridded paths, exact and tau-leap)")
     c04.drive(ck, "C11", limits=True)
+    bad, raw = parallel_check()
+    ck.notes["parallel_run"] = raw
+    ck.case(dict(kind="parallel"), nontrivial=True)
+    if bad:
+        ck.violation("limit-violated/parallel", bad, dict(kind="parallel"))
     for name in SCENARIOS:
         for exact in (True, False):
             for seed in (1, 2):
@@ -116,6 +141,8 @@ def run(ck):
 
 def replay(ck, data):
     inp = data["input"]
+    if inp.get("kind") == "parallel":
+        return parallel_check()[0]
     if inp.get("kind") == "scenario":
         return scenario_check(inp["name"], inp["exact"], inp["seed"])
     return c04.replay(ck, data)
